@@ -353,7 +353,7 @@ int main(int argc, char** argv)
    uint64_t total = 0;
    for(auto& f : fams) { start.push_back(total); total += f.size(); }
    auto getLP = [&](uint64_t idx, XLP & x) { size_t k = fams.size() - 1; while(k > 0 && start[k] > idx) --k; return fams[k].get(idx - start[k], x); };
-   uint64_t stride = total / (thorough ? 30000 : 1500) + 1;
+   uint64_t stride = total / (thorough ? 30000 : 6000) + 1;
    RunOpts o = rep.opts();
    o.perturb = {85};
    o.watchdog_s = 120;
